@@ -283,6 +283,34 @@ def build(tier="quick", seed=0):
 
         pack.add(Obligation(name, run, replay=lambda w: {"call": "c09_hostile", "args": w}, functions=FU))
 
+    # ---- the interpreted selector asked for BY TEXT (make_selector, what every reader does with selector=<text>) is the sandbox whatever was asked for before:
+    #      a compiled selector made from the same text earlier in the process (rdump's default) must not be handed out in its place
+    for e in ["r.s.upper()", "r.tags.append('x') or True", "__import__('os')", "r.__class__", "len(r.tags)"]:
+        name = f"C09.entry[make_selector({e!r}) after a compiled selector of the same text was made]"
+
+        def run(tier, e=e, name=name):
+            def th():
+                rec = mkrec()
+                before = snapshot(rec)
+                mk = sel.g["make_selector"]
+                try:
+                    it.call(mk, [e], {"force_compiled": True})  # made, never evaluated
+                except PyRaise:
+                    pass
+                s = it.call(mk, [e], {})
+                kind = it.type_name(s)
+                try:
+                    out = ("val", it.call(it.getattr_(s, "match"), [rec], {}))
+                except PyRaise as ex:
+                    out = ("raise", ex.cls_name)
+                same = all(k1 == k2 and (v1 is v2 or v1 == v2) for (k1, v1), (k2, v2) in zip(before, snapshot(rec)))
+                return kind, out, same
+
+            return prove_paths(name, th, lambda p: (p.value[0] == "Selector" and p.value[1][0] == "raise" and p.value[2], f"make_selector({e!r}) handed out a {p.value[0]}; evaluating it gave {p.value[1]!r} (record unchanged: {p.value[2]}) - must be the interpreted selector, which refuses"),
+                               lambda m, p: {"expr": e})
+
+        pack.add(Obligation(name, run, replay=lambda w: {"call": "c09_entry_history", "args": {"expr": w.get("expr")}}, functions=FU + ("flow.record.selector:make_selector",), mode="history of two make_selector calls"))
+
     # ---- attribute chains on typed matchers: `Type.<type>.<method>` names a method, it must never be invoked (no Call node is involved) ------------
     for e in ["Type.string.upper == 'ABC'", "Type.string.lower == 'abc'", "'ABC' in Type.string.upper", "Type.string.isalpha == True", "Type.string.encode == b'abc'", "Type.varint.bit_length == 3", "Type.string.strip == 'abc'"]:
         name = f"C09.typeattr[{e}]"
